@@ -56,7 +56,15 @@ def correspondence(rep, ctx):
     cmp("year_conv", float(dd.float_year_conv) == float(data["year_conv"]))
     cmp("nuclides", list(dd.nuclides) == list(data["nuclides"]))
     for k in ("progeny", "bfs", "modes"):
-        cmp(k, all(list(a) == list(b) for a, b in zip(getattr(dd, k), data[k])))
+        diff = [i for i, (a, b) in enumerate(zip(getattr(dd, k), data[k])) if list(a) != list(b)]
+        cmp(k, not diff)
+        if diff:
+            i = diff[0]
+            # the dataset the library hands out is not the data of the files: a concrete failing input for the listed-data
+            # clauses (order of branching fractions, decay mode vs change in Z / A are stated about what is loaded)
+            rep.violation("failing-input", f"load_dataset(): {k} of {data['nuclides'][i]} is {list(getattr(dd, k)[i])} in the loaded dataset, "
+                          f"{list(data[k][i])} in decay_data.npz (progeny {list(dd.progeny[i])} / fractions {list(dd.bfs[i])} / modes "
+                          f"{list(dd.modes[i])} as loaded)", {"call": "loaded-vs-file", "field": k, "nuclide": str(data['nuclides'][i])}, True)
     cmp("hldata", all(tuple(a) == tuple(b) for a, b in zip(dd.hldata, data["hldata"])))
     # decay constants as recomputed at load: ln2 / (hl in seconds), float arithmetic
     conv = rd.converters.UnitConverterFloat
